@@ -152,6 +152,39 @@ pub fn tower_product(s: &str) -> u64 {
     prod
 }
 
+/// Signature of an integer overflow on a unit power: the operation and the source file it happened in (files of
+/// `src/units/` as one group), never a line — `unit-power-i32-overflow:add@compound.rs`.  The open finding lists the
+/// combinations seen on the unchanged tree; an overflow somewhere else is a new violation.  Queries with a single
+/// unit word (one quantity raised to powers) are told apart: there only the display of a power of exactly -2^31
+/// overflows on the unchanged tree, `Compound::pow` itself is checked.
+fn overflow_signature(p: &str, input: &str) -> String {
+    let op = ["add", "subtract", "multiply", "negate", "divide"].iter().find(|o| p.contains(&format!("attempt to {} with overflow", o))).copied().unwrap_or("other");
+    let file = p.rsplit(" at ").next().unwrap_or("").rsplit_once(':').map(|x| x.0).unwrap_or("");
+    let file = match file.find("/src/") {
+        Some(i) => &file[i + 5..],
+        None => file,
+    };
+    let file = if file.starts_with("units/") { "units/*.rs" } else { file };
+    // a query with a single unit word is one quantity raised to powers — no product or sum of two units in it
+    let mut words = 0;
+    let mut inside = false;
+    for c in input.chars() {
+        let w = c.is_alphabetic() || c == '°';
+        if w && !inside {
+            words += 1;
+        }
+        inside = w;
+    }
+    let shape = match (words <= 1, input.contains('/')) {
+        (true, false) => ":single-unit-word",
+        (true, true) => ":single-unit-word-under-a-division",
+        // products, quotients and sums of two or more units: the finding covers about a hundred unchecked sites
+        // (sums in Compound::mul, `p * k` of every derived unit, the display) — one signature for all of them
+        _ => return "unit-power-i32-overflow".to_string(),
+    };
+    format!("unit-power-i32-overflow:{}@{}{}", op, file, shape)
+}
+
 pub fn check_str(db: &anything::Db, s: &str) -> CaseReport {
     let r = guarded(s, || -> Result<(usize, usize, usize), (String, String)> {
         let ntok = Lexer::new(s).count();
@@ -201,7 +234,7 @@ pub fn check_str(db: &anything::Db, s: &str) -> CaseReport {
         // known finding (DESIGN 5, #19): unit powers are plain i32 and none of the arithmetic on them is checked,
         // so a unit power driven towards 2^31 by a tower of `^` overflows in debug-assertion builds.  Keyed on
         // the input class (product of the exponents behind power operators) and the panic kind, not on a line.
-        Err(p) if p.contains("with overflow") && tower_product(s) >= (1u64 << 24) => CaseReport::fail(s, "unit-power-i32-overflow", json!({"input": s, "panic": p, "product_of_exponents": tower_product(s)})),
+        Err(p) if p.contains("with overflow") && tower_product(s) >= (1u64 << 24) => CaseReport::fail(s, overflow_signature(&p, s), json!({"input": s, "panic": p, "product_of_exponents": tower_product(s)})),
         Err(p) => CaseReport::fail(s, format!("panic:{}", panic_site(&p)), json!({"input": s, "panic": p})),
         Ok(Err((sig, why))) => CaseReport::fail(s, sig, json!({"input": s, "why": why})),
         Ok(Ok((ntok, n, reached))) => {
